@@ -389,6 +389,9 @@ type Terminal struct {
 	previewSeq         int64
 	previewKiller      func()
 	readerKiller       func()
+	executingKiller    func()
+	terminating        bool
+	executingMutex     sync.Mutex
 	previewStopped     bool
 	previewKillerMutex sync.Mutex
 	serverInputChan    chan []*action
@@ -4185,7 +4188,11 @@ func (t *Terminal) executeCommand(template string, forcePlus bool, background bo
 			t.uiMutex.Lock()
 		}
 		t.tui.Pause(true)
-		cmd.Run()
+		if cmd.Start() == nil {
+			t.setForegroundKiller(func() { cmd.Process.Kill() })
+			cmd.Wait()
+			t.setForegroundKiller(nil)
+		}
 		t.tui.Resume(true, false)
 		t.mutex.Lock()
 		// NOTE: Using t.reqBox.Set(reqFullRedraw...) instead can cause a deadlock
@@ -4211,7 +4218,9 @@ func (t *Terminal) executeCommand(template string, forcePlus bool, background bo
 		if capture {
 			out, _ := cmd.StdoutPipe()
 			reader := bufio.NewReader(out)
-			cmd.Start()
+			if cmd.Start() == nil {
+				t.setForegroundKiller(func() { cmd.Process.Kill() })
+			}
 			if firstLineOnly {
 				line, _ = reader.ReadString('\n')
 				line = strings.TrimRight(line, "\r\n")
@@ -4220,8 +4229,11 @@ func (t *Terminal) executeCommand(template string, forcePlus bool, background bo
 				line = string(bytes)
 			}
 			cmd.Wait()
-		} else {
-			cmd.Run()
+			t.setForegroundKiller(nil)
+		} else if cmd.Start() == nil {
+			t.setForegroundKiller(func() { cmd.Process.Kill() })
+			cmd.Wait()
+			t.setForegroundKiller(nil)
 		}
 		cancel()
 		if paused.CompareAndSwap(1, 2) {
@@ -4244,6 +4256,27 @@ func (t *Terminal) executeCommand(template string, forcePlus bool, background bo
 	t.executing.Set(false)
 	removeFiles(tempFiles)
 	return line
+}
+
+// setForegroundKiller registers how to stop the command that fzf is waiting
+// for, so that it can be stopped when fzf is told to terminate in the meantime
+func (t *Terminal) setForegroundKiller(killer func()) {
+	t.executingMutex.Lock()
+	t.executingKiller = killer
+	if t.terminating && killer != nil {
+		// Started by an action that was already under way
+		killer()
+	}
+	t.executingMutex.Unlock()
+}
+
+func (t *Terminal) killForeground() {
+	t.executingMutex.Lock()
+	t.terminating = true
+	if t.executingKiller != nil {
+		t.executingKiller()
+	}
+	t.executingMutex.Unlock()
 }
 
 func (t *Terminal) hasPreviewer() bool {
@@ -4515,6 +4548,9 @@ func (t *Terminal) Loop() error {
 				case s := <-intChan:
 					// Don't quit by SIGINT while executing because it should be for the executing command and not for fzf itself
 					if !(s == os.Interrupt && t.executing.Get()) {
+						// The render loop cannot quit while a command is running in
+						// the foreground: stop the command
+						t.killForeground()
 						t.reqBox.Set(reqQuit, nil)
 					}
 				}
